@@ -441,7 +441,7 @@ fn run_map<T: El + Send + Sync>(spec: &ShardSpec, cur: Option<&str>) -> Outcome 
     let pools: usize = spec.extra.get("pools").and_then(|s| s.parse().ok()).unwrap_or(16);
     let part: usize = spec.extra.get("part").and_then(|s| s.parse().ok()).unwrap_or(0);
     let parts: usize = spec.extra.get("parts").and_then(|s| s.parse().ok()).unwrap_or(1);
-    let fam = build_family::<MapWorld<T>>(&cfg, "mut1+ch0+shape", spec.n, cap, &mut out);
+    let fam = build_family::<MapWorld<T>>(&cfg, "mut1+ch0+shape", spec.n, cap, &mut out, cur);
     out.layers.push((fam.len() as u64, 0));
     let mut sigs = HashSet::new();
     let mut seen = HashSet::new();
@@ -517,7 +517,7 @@ fn run_set<T: El + Send + Sync>(spec: &ShardSpec, cur: Option<&str>) -> Outcome 
     let pools: usize = spec.extra.get("pools").and_then(|s| s.parse().ok()).unwrap_or(16);
     let part: usize = spec.extra.get("part").and_then(|s| s.parse().ok()).unwrap_or(0);
     let parts: usize = spec.extra.get("parts").and_then(|s| s.parse().ok()).unwrap_or(1);
-    let fam = build_family::<SetWorld<T>>(&cfg, "skey+sshape", spec.n, cap, &mut out);
+    let fam = build_family::<SetWorld<T>>(&cfg, "skey+sshape", spec.n, cap, &mut out, cur);
     out.layers.push((fam.len() as u64, 0));
     let mut sigs = HashSet::new();
     let mut seen = HashSet::new();
